@@ -3,7 +3,7 @@ environment-refresh typestate, pack/unpack order, post-order column bookkeeping 
 import ast
 
 from ..src import AnalysisError, unparse, norm_stmt, walk_no_nested
-from ..label import World, bond, Node, T, Dim, flip, split_args, check_network
+from ..label import World, bond, Node, T, Dim, flip, split_args, check_network, TreeSym
 from ..syminterp import Sym, SymDict, SymInterp, Blob
 from .. import qn as Q
 
@@ -291,39 +291,41 @@ def state_networks(chk, src, topologies=NET_TOPOLOGIES, which=ALL_STATE, floor=2
             _net_ob(chk, "state-network", f"merge_to_parent [{topo}: {n}]", fmp, rec[0], [repr(p.tensor), "v"], want_legs,
                     f"the bond matrix must be contracted (first axis) with the parent's axis for child {n} and its second axis must take that axis' place")
             chk.ob("state-network", f"merge_to_parent stores into the parent [{topo}: {n}]", store == [rec[0]["res"]], fmp.where, [repr(x) for x in store], "node.parent.tensor = result", line=fmp.node.lineno)
-        # ---- TTNO.apply (loop body, every node)
-        loop = [s for s in fap.node.body if isinstance(s, ast.For)][0]
-        for n_idx in (range(nn) if "apply" in which else ()):
+        # ---- TTNO.apply (whole function, all nodes in one abstract run)
+        if "apply" in which:
             rec, oe = _recorder()
             w = World(src, topology=topo, extra_builtins={"oe_contract": lambda *a, **k: _Reshapable(oe(*a, **k)), "add_outer": lambda a, b: _Outer(a, b)})
-            n = w.snodes[n_idx]
-            o = w.o(n)
-            n.__dict__["qn"], o.__dict__["qn"] = "state-qn", "operator-qn"
-            n2 = Sym("new-node")
-            env = {"snode1": n, "snode2": n2, "onode": o, "ttns": w.ttns, "self": w.ttno}
-            w.interp.block(loop.body, env, fap)
-            r = rec[0]
-            # expected result: per bond a (state, operator) pair merged; physical = operator rows
-            want = []
-            for l in n.tensor.legs:
-                if l[0] == "ket":
-                    want += [l, ("op", l[1])]
-                else:
-                    want.append(("bphys", l[1], l[2]))
-            _net_ob(chk, "state-network", f"TTNO.apply [{topo}: {n}]", fap, r, [repr(n.tensor), repr(o.tensor)], want,
-                    "O|psi> at one node: state and operator tensors joined over the operator's column (down) index; result axes = (state bond, operator bond) pairs and the operator's row (up) indices")
-            rs = n2.__dict__.get("tensor")
-            shape = rs.shape_arg if isinstance(rs, _Reshapable) else None
-            want_shape = []
-            for l in n.tensor.legs:
-                want_shape.append((1 if l[1][0] == "root" else Dim([str(l), str(("op", l[1]))])) if l[0] == "ket" else Dim([str(l)]))
-            chk.ob("state-network", f"TTNO.apply merged shape [{topo}: {n}]", shape is not None and list(shape) == want_shape, fap.where, [repr(d) for d in (shape or [])], [repr(d) for d in want_shape], line=fap.node.lineno,
-                   detail="each (state bond, operator bond) pair of the result is merged into one axis of size D_state * D_operator, physical axes keep the state's size")
-            q = n2.__dict__.get("qn")
-            okq = isinstance(q, _Outer) and (q.a, q.b) == ("state-qn", "operator-qn")
-            chk.ob("state-network", f"TTNO.apply merged quantum numbers [{topo}: {n}]", okq, fap.where, (q.a, q.b) if isinstance(q, _Outer) else repr(q), ("state-qn", "operator-qn"), line=fap.node.lineno,
-                   detail="the merged parent bond is (state, operator) with the state index major: its quantum numbers must be add_outer(state qn, operator qn) in the same order, otherwise the "
-                          "labels of the merged bond are permuted (invisible when either bond has dimension one or all labels are equal)")
+            for n in w.snodes:
+                n.__dict__["qn"] = f"state-qn({n})"
+            for o in w.onodes:
+                o.__dict__["qn"] = f"operator-qn({o})"
+            new_nodes = [Sym(f"new({n})") for n in w.snodes]
+            new_tree = TreeSym("new", node_list=new_nodes, check_shape=lambda: None, canonicalise=lambda: None)
+            w.overrides[("ttns", "metacopy")] = lambda: new_tree
+            out = w.interp.call_function(fap, [w.ttno, w.ttns])
+            chk.ob("state-network", f"TTNO.apply returns the new state [{topo}]", out is new_tree and len(rec) == nn, fap.where, f"{len(rec)} contractions, returns {out!r}", f"{nn} contractions, returns the metacopy", line=fap.node.lineno)
+            for n_idx in range(min(nn, len(rec))):
+                n, o, n2, r = w.snodes[n_idx], w.onodes[n_idx], new_nodes[n_idx], rec[n_idx]
+                want = []
+                for l in n.tensor.legs:
+                    if l[0] == "ket":
+                        want += [l, ("op", l[1])]
+                    else:
+                        want.append(("bphys", l[1], l[2]))
+                _net_ob(chk, "state-network", f"TTNO.apply [{topo}: {n}]", fap, r, [repr(n.tensor), repr(o.tensor)], want,
+                        "O|psi> at one node: state and operator tensors joined over the operator's column (down) index; result axes = (state bond, operator bond) pairs and the operator's row (up) indices")
+                rs = n2.__dict__.get("tensor")
+                shape = rs.shape_arg if isinstance(rs, _Reshapable) else None
+                want_shape = []
+                for l in n.tensor.legs:
+                    want_shape.append((1 if l[1][0] == "root" else Dim([str(l), str(("op", l[1]))])) if l[0] == "ket" else Dim([str(l)]))
+                chk.ob("state-network", f"TTNO.apply merged shape [{topo}: {n}]", shape is not None and list(shape) == want_shape and rs.t is r["res"], fap.where, [repr(d) for d in (shape or [])], [repr(d) for d in want_shape], line=fap.node.lineno,
+                       detail="each (state bond, operator bond) pair of the result is merged into one axis of size D_state * D_operator, physical axes keep the state's size; the result is stored on the same node of the new state")
+                q = n2.__dict__.get("qn")
+                okq = isinstance(q, _Outer) and (q.a, q.b) == (f"state-qn({n})", f"operator-qn({o})")
+                chk.ob("state-network", f"TTNO.apply merged quantum numbers [{topo}: {n}]", okq, fap.where, (q.a, q.b) if isinstance(q, _Outer) else repr(q), (f"state-qn({n})", f"operator-qn({o})"), line=fap.node.lineno,
+                       detail="the merged parent bond is (state, operator) with the state index major: its quantum numbers must be add_outer(state qn, operator qn) in the same order, otherwise the "
+                              "labels of the merged bond are permuted (invisible when either bond has dimension one or all labels are equal)")
         # ---- todense
         for who, fi in (("ttns", ftd_s), ("ttno", ftd_o)):
             if ("todense_s" if who == "ttns" else "todense_o") not in which:
@@ -332,14 +334,13 @@ def state_networks(chk, src, topologies=NET_TOPOLOGIES, which=ALL_STATE, floor=2
             w = World(src, topology=topo, extra_builtins={"oe_contract": oe, "round": lambda x: x, "BasisDummy": None})
             obj = getattr(w, who)
             order = list(reversed(w.ttns.basis.basis_list))
-            body = [s for s in fi.node.body if not (isinstance(s, ast.Return) or "res" in {unparse(t) for t in getattr(s, "targets", [])} and "oe_contract" not in unparse(s))]
-            env = {"self": obj, "order": order}
             obj.__dict__["basis"] = w.ttns.basis
-            try:
-                w.interp.block(body, env, fi)
-            except AnalysisError:
-                if not rec:
-                    raise
+            w.interp.builtins["np"] = Sym("np", sqrt=lambda x: Blob("dim"), prod=lambda x: Blob("n"))
+            w.interp.builtins["round"] = lambda x: Blob("dim")
+            w.methods[who]["todense"] = fi
+            w.interp.call_function(fi, [obj, order])
+            if len(rec) != 1:
+                raise AnalysisError(f"{fi.where}: {len(rec)} contractions recorded")
             r = rec[0]
             dofs = [(bs.dofs.split(".")[0], int(bs.dofs.split(".s")[1])) for bs in order]
             if who == "ttns":
@@ -353,29 +354,28 @@ def state_networks(chk, src, topologies=NET_TOPOLOGIES, which=ALL_STATE, floor=2
         # ---- expectation1
         if "expectation1" in which:
             rec, oe = _recorder()
-            w = World(src, topology=topo, extra_builtins={"oe_contract": lambda *a, **k: Blob(repr(oe(*a, **k)))})
-            try:
-                w.interp.block(fe1.node.body[:-1], {"self": w.ttns, "ttno": w.ttno, "bra": None}, fe1)
-            except AnalysisError:
-                if not rec:
-                    raise
+            w = World(src, topology=topo, extra_builtins={"oe_contract": lambda *a, **k: Blob(repr(oe(*a, **k))), "float": lambda x: 0.0, "complex": lambda x: 0j,
+                                                          "np": Sym("np", isclose=lambda *a: True)})
+            w.interp.call_function(fe1, [w.ttns, w.ttno])
+            if len(rec) != 1:
+                raise AnalysisError(f"{fe1.where}: {len(rec)} contractions recorded")
             wt = [repr(x.tensor) for x in w.snodes] + [repr(x.tensor) + ".conj()" for x in w.snodes] + [repr(x.tensor) for x in w.onodes]
             _net_ob(chk, "state-network", f"TTNS.expectation1 [{topo}]", fe1, rec[0], wt, None, "<psi|O|psi> contracts every ket, bra and operator tensor, no open index")
         # ---- reduced density matrices (dummy operator: every physical index of other nodes is contracted ket-bra directly)
         allphys = {(x._name, k) for x in World(src, topology=topo).snodes for k in range(x.nsets)}
-        loop1 = [s for s in fr1.node.body if isinstance(s, ast.For)][0]
         for n_idx in (range(nn) if "rdm1" in which else ()):
             rec, oe = _recorder(direct=allphys - {(TOPO_LEN(topo)[n_idx][0], k) for k in range(TOPO_LEN(topo)[n_idx][1])}, dangling_ok=("op",))
             w = World(src, dummy_op=True, topology=topo, extra_builtins={"oe_contract": oe})
+            w.interp.builtins.update({"TTNO": Sym("TTNO", dummy=lambda basis: w.ttno), "TTNEnviron": lambda *a: w.ttne})
             n = w.snodes[n_idx]
-            env = {"self": w.ttns, "ttno_dummy": w.ttno, "ttne": w.ttne, "idx": [n_idx], "rdm": {}}
-            w.interp.block([loop1], env, fr1)
+            out = w.interp.call_function(fr1, [w.ttns, [n_idx]])
+            if len(rec) != 1 or not (isinstance(out, dict) and out.get(n_idx) is rec[0]["res"]):
+                raise AnalysisError(f"{fr1.where}: the contraction result is not returned under the site index")
             e = w.e(n)
             wt = [repr(t) for t in e.environ_children] + [repr(n.tensor) + ".conj()", repr(n.tensor), repr(e.environ_parent)]
             want = [("kphys", n._name, k) for k in range(n.nsets)] + [("bphys", n._name, k) for k in range(n.nsets)]
             _net_ob(chk, "state-network", f"calc_1site_rdm [{topo}: {n}]", fr1, rec[0], wt, want,
                     "rho = Tr_rest |psi><psi|: all environments of the node, the node and its conjugate; output = ket (down) indices followed by bra (up) indices as documented")
-        loop2 = [s for s in fr2.node.body if isinstance(s, ast.For)][0]
         for i1 in (range(nn) if "rdm2" in which else ()):
             for i2 in range(nn):
                 if i1 == i2:
@@ -385,8 +385,10 @@ def state_networks(chk, src, topologies=NET_TOPOLOGIES, which=ALL_STATE, floor=2
                 rec, oe = _recorder(direct=allphys - open_phys, dangling_ok=("op",))
                 w = World(src, dummy_op=True, topology=topo, extra_builtins={"oe_contract": oe})
                 w.ttns.__dict__["find_path"] = lambda a, b: _find_path(a, b)
-                env = {"self": w.ttns, "ttno_dummy": w.ttno, "ttne": w.ttne, "idxs": [(i1, i2)], "rdm": {}}
-                w.interp.block([loop2], env, fr2)
+                w.interp.builtins.update({"TTNO": Sym("TTNO", dummy=lambda basis: w.ttno), "TTNEnviron": lambda *a: w.ttne})
+                out = w.interp.call_function(fr2, [w.ttns, [(i1, i2)]])
+                if len(rec) != 1 or not (isinstance(out, dict) and out.get((i1, i2)) is rec[0]["res"]):
+                    raise AnalysisError(f"{fr2.where}: the contraction result is not returned under the index pair")
                 a, b = w.snodes[i1], w.snodes[i2]
                 path = _find_path(a, b)
                 wt = []
@@ -831,15 +833,15 @@ def pack_unpack(chk, src):
             n.__dict__["qn"] = "qn"
         for n in new.node_list:
             n.__dict__["qn"] = None
-        loop = [x for x in ft.node.body if isinstance(x, ast.For)][0]
-        env = {"ttns": new, "template": template, "tensors": Vec("tensors"), "cursor": Cur(0, None)}
-        w2.interp.block([loop], env, ft)
+        out_tree = w2.interp.call_function(ft, ["cls", template, Vec("tensors")])
+        if out_tree is not new:
+            raise AnalysisError(f"{ft.where}: does not return the metacopy of the template")
         got = []
         okseq = True
         prev = Cur(0, None)
         for (name, key, v), nd in zip(stores, new.node_list):
             got.append((nd._name, key))
-            if not (isinstance(v, tuple) and v[0] == "slice" and v[1] == prev and isinstance(v[2], Cur) and v[2].terms == prev.terms + (f"mask(ttns,{nd._name})",)):
+            if not (isinstance(v, tuple) and v[0] == "slice" and (v[1] == prev or (v[1] == 0 and not prev.terms)) and isinstance(v[2], Cur) and v[2].terms == prev.terms + (f"mask(ttns,{nd._name})",)):
                 okseq = False
             prev = v[2] if isinstance(v, tuple) else prev
         ok = got == want and okseq and len(stores) == len(want) and all(nd.__dict__["tensor"].__class__.__name__ == "Z" for nd in new.node_list)
@@ -857,7 +859,12 @@ class Cur:
 
     def __add__(self, o):
         c = Cur(0, None)
-        c.terms = self.terms + o.terms
+        c.terms = self.terms + (o.terms if isinstance(o, Cur) else ())
+        return c
+
+    def __radd__(self, o):
+        c = Cur(0, None)
+        c.terms = self.terms
         return c
 
     def __eq__(self, o):
@@ -1328,7 +1335,6 @@ def decomposition_axes(chk, src, topologies=NET_TOPOLOGIES):
 def direct_sum(chk, src, topologies=NET_TOPOLOGIES):
     chk.rule("direct-sum", "TTNS.add: bond axes are direct sums (first summand first), physical axes and the bond above the root are shared, labels are concatenated in the same order", 6)
     fi = src.func(TREE, "TTNS.add")
-    loop = [s for s in fi.node.body if isinstance(s, ast.For)][0]
     for topo in topologies:
         w1, w2 = World(src, topology=topo), World(src, topology=topo)
         for k, w in ((1, w1), (2, w2)):
@@ -1338,28 +1344,30 @@ def direct_sum(chk, src, topologies=NET_TOPOLOGIES):
                 t.__dict__["dtype"] = "dtype"
                 n.__dict__["tensor"] = t
                 n.__dict__["qn"] = _QN(f"{n._name}.qn@{k}")
+        stores, made = [], []
+
+        class Z(Sym):
+            def __setitem__(self, key, v):
+                stores.append((self, key, v))
+
+        def zeros(shape, dtype=None):
+            made.append(Z("new-tensor"))
+            made[-1].__dict__["made_shape"] = list(shape)
+            return made[-1]
+        new_nodes = [Sym(f"new({n})") for n in w1.snodes]
+        new_tree = TreeSym("new", node_list=new_nodes, check_shape=lambda: None)
+        w1.overrides[("ttns", "metacopy")] = lambda: new_tree
+        interp = w1.interp
+        interp.builtins["np"] = Sym("np", promote_types=lambda *x: "dtype", zeros=zeros, concatenate=lambda l, axis=None: ("concat",) + tuple(repr(x) for x in l),
+                                    testing=Sym("testing", assert_allclose=lambda *x: None))
+        Dim.__add__ = lambda s_, o: SumDim(s_, o)
+        out = interp.call_function(fi, [w1.ttns, w2.ttns])
+        if out is not new_tree:
+            raise AnalysisError(f"{fi.where}: does not return the metacopy")
         for n_idx, (a, b2) in enumerate(zip(w1.snodes, w2.snodes)):
-            stores = []
-
-            class Z(Sym):
-                def __setitem__(self, key, v):
-                    stores.append((key, v))
-            made = []
-
-            def zeros(shape, dtype=None):
-                made.append(list(shape))
-                return Z("new-tensor")
-            new_node = Sym("new-node")
-            interp = w1.interp
-            interp.builtins["np"] = Sym("np", promote_types=lambda *x: "dtype", zeros=zeros, concatenate=lambda l, axis=None: ("concat",) + tuple(repr(x) for x in l),
-                                        testing=Sym("testing", assert_allclose=lambda *x: None))
-            Dim.__add__ = lambda s_, o: SumDim(s_, o)
-            env = {"self": w1.ttns, "other": w2.ttns}
-            body_env = dict(env)
-            body_env.update({"new_node": new_node, "node1": a, "node2": b2})
-            interp.block(loop.body, body_env, fi)
-            shape = made[-1]
-            ok = True
+            new_node = new_nodes[n_idx]
+            nt = new_node.__dict__.get("tensor")
+            shape = nt.__dict__.get("made_shape") if isinstance(nt, Z) else None
             want_shape, want1, want2 = [], [], []
             for j, leg in enumerate(a.tensor.legs):
                 d1, d2 = a.tensor.shape[j], b2.tensor.shape[j]
@@ -1371,13 +1379,13 @@ def direct_sum(chk, src, topologies=NET_TOPOLOGIES):
                     want_shape.append(d1)
                     want1.append(slice(0, d1))
                     want2.append(slice(0, d1))
-            got1 = [k for k, v in stores if v is a.tensor]
-            got2 = [k for k, v in stores if v is b2.tensor]
+            got1 = [k for z, k, v in stores if v is a.tensor and z is nt]
+            got2 = [k for z, k, v in stores if v is b2.tensor and z is nt]
             q = new_node.__dict__.get("qn")
             wantq = repr(a.qn) + ".copy" if a.parent is None else ("concat", repr(a.qn), repr(b2.qn))
             okq = (repr(q) == wantq) if a.parent is None else (q == wantq)
             ok = shape == want_shape and got1 == [tuple(want1)] and got2 == [tuple(want2)] and okq
-            chk.ob("direct-sum", f"TTNS.add [{topo}: {a}]", ok, fi.where, {"shape": [repr(x) for x in shape], "block 1": repr(got1), "block 2": repr(got2), "qn": repr(q)},
+            chk.ob("direct-sum", f"TTNS.add [{topo}: {a}]", ok, fi.where, {"shape": [repr(x) for x in (shape or [])], "block 1": repr(got1), "block 2": repr(got2), "qn": repr(q)},
                    {"shape": [repr(x) for x in want_shape], "block 1": repr([tuple(want1)]), "block 2": repr([tuple(want2)]), "qn": repr(wantq)}, line=fi.node.lineno,
                    detail=f"sum of two states at node {a}: every bond axis must be the direct sum of the two bonds (summand 1 in the leading block), physical axes and the root's upper bond are shared; "
                           "misclassifying an axis adds amplitudes that belong to different bond states or doubles the physical dimension (depends on the number of children)")
@@ -1500,26 +1508,32 @@ def ttno_layout(chk, src):
     chk.rule("layout", "numeric TTNO node tensors are laid out (children bonds..., (row, column) per basis set..., parent bond): the axes the label schema names; "
              "symbolic node matrices are indexed [children...][parent]; construction and numeric conversion traverse the tree in the same order", 6)
     fi = src.func(TTNOB, "symbolic_mo_to_numeric_mo_general")
-    # 1. shape and final axis move, evaluated on symbolic shapes for 0..3 children and 1..3 basis sets
-    shape_stmt = [s for s in fi.node.body if isinstance(s, ast.Assign) and unparse(s.targets[0]) == "shape"]
-    ret = [s for s in fi.node.body if isinstance(s, ast.Return)]
-    if len(shape_stmt) != 1 or len(ret) != 1:
-        raise AnalysisError(f"{fi.where}: shape / return statements not found")
+    # 1. shape and final axis move: abstract run of the whole function on symbolic shapes for 0..3 children and 1..3 basis sets
     bad = []
     for nch in range(0, 4):
         for k in range(1, 4):
-            mo = Sym("mo", shape=tuple([f"in{c}" for c in range(nch)] + ["out"]), ndim=nch + 1)
-            it = SymInterp(src, None, {"chain": lambda *a: [x for p_ in a for x in p_],
-                                       "np": Sym("np", moveaxis=lambda t, a, b: _mv(t, a, b), zeros=lambda shape, dtype=None: list(shape))})
-            env = {"mo": mo, "pdims": [f"p{j}" for j in range(k)], "dtype": None}
-            it.stmt(shape_stmt[0], env, fi)
-            env["mo_tensor"] = list(env["shape"])
-            got = it.ev(ret[0].value, env)
+            shp = tuple([f"in{c}" for c in range(nch)] + ["out"])
+            mo = _MoSym([(tuple([0] * (nch + 1)), [_TermSym("t", [_OpSym(f"s{j}") for j in range(k)])])], ndim=nch + 1, shape=shp)
+            made = []
+
+            def zeros(shape, dtype=None):
+                made.append(_Acc())
+                made[-1].__dict__["made_shape"] = list(shape)
+                return made[-1]
+            it0 = SymInterp(src, None, {"Model": lambda basis, terms_: Sym("model", dof_to_siteidx="d2s"), "chain": lambda *a_: [x for p_ in a_ for x in p_],
+                                        "np": Sym("np", zeros=zeros, ndenumerate=lambda m: list(m.entries), eye=lambda n: _Elem([], None),
+                                                  tensordot=lambda a_, b_, axes=None: _Elem(a_.blocks + [b_], a_.factor), iscomplexobj=lambda x: False,
+                                                  moveaxis=lambda t, a_, b_: ("moved", t, a_, b_))})
+            res = it0.call_function(fi, [[_BasisSym(f"b{j}", "B", f"p{j}") for j in range(k)], mo, "dtype"])
             want = [f"in{c}" for c in range(nch)] + [x for j in range(k) for x in (f"p{j}", f"p{j}")] + ["out"]
+            if not (isinstance(res, tuple) and res[0] == "moved" and made and res[1] is made[-1]):
+                bad.append(f"{nch} children, {k} basis sets: the accumulated tensor is not returned through one axis move")
+                continue
+            got = _mv(made[-1].__dict__["made_shape"], res[2], res[3])
             if got != want:
                 bad.append(f"{nch} children, {k} basis sets: axes {got}, expected {want}")
     chk.ob("layout", "symbolic_mo_to_numeric_mo_general: children, (row, col)*, parent", not bad, fi.where, bad[:2] or "12 (arity, basis-count) combinations", "children..., (p, p) per basis set..., parent",
-           line=ret[0].lineno, detail="the bond to the parent must be moved behind the physical axes for every number of children and basis sets: " + (bad[0] if bad else ""))
+           line=fi.node.lineno, detail="the bond to the parent must be moved behind the physical axes for every number of children and basis sets: " + (bad[0] if bad else ""))
     # 2. provenance of the local matrices: an abstract run of the conversion on symbolic basis sets, twice in one "process" (module-level
     #    names persist between the runs) with different basis objects of the same class and size
     it = SymInterp(src, None, {})
@@ -1560,26 +1574,100 @@ def ttno_layout(chk, src):
            "b.op_mat(symbol)[None, :, :, None] for (symbol, b) in zip(term_split, basis_sets), accumulated per entry", line=fi.node.lineno,
            detail="each basis set contributes the matrix of its own operator symbol, computed from that basis set's parameters, as (row, column) = (up, down) in basis-set order: " +
                   (problems[0] if problems else "") + " - a transposed / reordered block gives another operator; a value remembered from an earlier basis object makes the second operator built in a process wrong")
-    # 3. compose: in-indices = leading symbols, physical = last k symbols
+    # 3. compose: abstract run - entry [child indices...][parent index] = factor * product of the last k primary operators, in order
     cs = src.func(TTNOB, "compose_symbolic_mo_general")
-    subs = sorted({unparse(n.slice).replace(" ", "") for n in ast.walk(cs.node) if isinstance(n, ast.Subscript) and unparse(n.value) == "composed_op.symbol"})
-    shp = [unparse(s.value).replace(" ", "") for s in cs.node.body if isinstance(s, ast.Assign) and unparse(s.targets[0]) == "shape"]
-    idx = [norm_stmt(s, 60) for s in ast.walk(cs.node) if isinstance(s, ast.Assign) and unparse(s.targets[0]) == "l"]
-    ok = subs == ["-k:", ":-k"] and shp == ["[len(in_ops)forin_opsinin_ops_list]+[len(out_ops)]"] and idx == ["l = mo[in_idx][iop]", "l = mo[iop]"]
-    chk.ob("layout", "compose_symbolic_mo_general: [children...][parent] indexing, last k symbols physical", ok, cs.where, {"symbol slices": subs, "shape": shp, "index": idx},
-           {"symbol slices": ["-k:", ":-k"], "shape": "children sizes + [parent size]", "index": "mo[in_idx][iop]"}, line=cs.node.lineno,
-           detail="the composed symbol is (one index per child bond..., k physical symbols): the builder lays the table rows out in this order (builder-columns rule)")
-    # 4. same traversal in construction and conversion; connection copied in that order
+
+    class _GridN(Sym):
+        def __init__(self, shape):
+            super().__init__("grid")
+            self.shape = tuple(shape)
+            import itertools
+            self.cells = {idx: None for idx in itertools.product(*[range(d) for d in self.shape])}
+
+        def __getitem__(self, k):
+            k = k if isinstance(k, tuple) else (k,)
+            if len(k) == len(self.shape):
+                return self.cells[k]
+            if len(k) == len(self.shape) - 1:
+                return [self.cells[k + (j,)] for j in range(self.shape[-1])]
+            raise AnalysisError("symbolic node matrix indexed with an unexpected number of indices")
+
+        def __setitem__(self, k, v):
+            self.cells[k if isinstance(k, tuple) else (k,)] = v
+
+    class _P(Sym):
+        def __init__(self, items):
+            super().__init__("*".join(items))
+            self.items = list(items)
+
+        def __mul__(self, o):
+            return _P(self.items + [o if isinstance(o, str) else repr(o)])
+    probs3 = []
+    for nch, k in ((0, 1), (0, 2), (1, 1), (2, 1), (2, 2), (3, 2)):
+        it3 = SymInterp(src, None, {"np": Sym("np", full=lambda shape, fill, dtype=None: _GridN(shape), ndenumerate=lambda g: [(i, g.cells[i]) for i in sorted(g.cells)])})
+        in_ops_list = [[f"c{c}op{j}" for j in range(2)] for c in range(nch)]
+        prim = {j: f"prim{j}" for j in range(5)}
+        comp = []
+        if nch:
+            comp = [[Sym("x", symbol=tuple([1] * nch + list(range(k))), factor=_P(["fa"]))], [Sym("y", symbol=tuple([0] * nch + list(range(1, k + 1))), factor=_P(["fb"])),
+                                                                                             Sym("z", symbol=tuple([1] + [0] * (nch - 1) + list(range(2, k + 2))), factor=_P(["fc"]))]]
+        else:
+            comp = [[Sym("x", symbol=tuple(range(k)), factor=_P(["fa"]))], [Sym("y", symbol=tuple(range(1, k + 1)), factor=_P(["fb"]))]]
+        try:
+            g = it3.call_function(cs, [in_ops_list, comp, prim, k])
+        except (KeyError, IndexError) as e:
+            probs3.append(f"{nch} children, k={k}: {type(e).__name__}: {e}")
+            continue
+        want = {}
+        for iop, outs in enumerate(comp):
+            for c_ in outs:
+                idx = tuple(c_.symbol[:nch]) + (iop,)
+                want.setdefault(idx, []).append([c_.factor.items[0]] + [f"prim{j}" for j in c_.symbol[nch:]])
+        got = {i: [x.items for x in v] for i, v in getattr(g, "cells", {}).items() if v}
+        if not isinstance(g, _GridN) or g.shape != tuple([2] * nch + [len(comp)]) or got != want:
+            probs3.append(f"{nch} children, k={k}: entries {got}, expected {want}")
+    chk.ob("layout", "compose_symbolic_mo_general: [children...][parent] indexing, last k symbols physical", not probs3, cs.where, probs3[:2] or "6 (arity, k) combinations",
+           "entry[child indices + (parent index,)] = factor * primary operators of the last k symbols, in order", line=cs.node.lineno,
+           detail="the composed symbol is (one index per child bond..., k physical symbols): the builder lays the table rows out in this order (builder-columns rule): " + (probs3[0] if probs3 else ""))
+    # 4. same traversal in construction and conversion; connection copied in that order (abstract runs; the traversal is identified by the method called on the basis tree)
     ct = src.func(TTNOB, "construct_symbolic_ttno")
     init = src.func(TREE, "TTNO.__init__")
-    t1 = [unparse(s.value).replace(" ", "") for s in ct.node.body if isinstance(s, ast.Assign) and unparse(s.targets[0]) == "nodes"]
-    t2 = [unparse(s.value).replace(" ", "") for s in ast.walk(init.node) if isinstance(s, ast.Assign) and unparse(s.targets[0]) == "node_list_basis"]
-    cc = [unparse(c).replace(" ", "") for c in ast.walk(init.node) if isinstance(c, ast.Call) and unparse(c.func) == "copy_connection"]
-    pair = [unparse(s.value).replace(" ", "") for s in ast.walk(init.node) if isinstance(s, (ast.Assign, ast.AnnAssign)) and unparse(s.targets[0] if isinstance(s, ast.Assign) else s.target) == "node_basis"]
-    ok = t1 == ["tn.postorder_list()"] and t2 == ["self.basis.postorder_list()"] and cc == ["copy_connection(node_list_basis,node_list_op)"] and pair == ["node_list_basis[impo]"]
-    chk.ob("layout", "construction order = conversion order = connection order", ok, init.where, {"construct": t1, "convert": t2, "pairing": pair, "connect": cc},
-           "postorder_list() in both; node_list_basis[impo]; copy_connection(node_list_basis, node_list_op)", line=init.node.lineno,
-           detail="the i-th symbolic node matrix must be converted with the basis sets of the i-th node of the same traversal, and wired with that traversal's connectivity")
+    w4 = World(src, topology="binary")
+    trav = {"postorder_list": _postorder(w4.snodes[0]), "preorder_list": list(w4.snodes), "node_list": list(w4.snodes)}
+    used = {"construct": [], "init": []}
+
+    def mk_basis(tag):
+        d = {nm: (lambda nm=nm: (used[tag].append(nm), list(trav[nm]))[1]) for nm in ("postorder_list", "preorder_list")}
+        return Sym("basis-tree", node_list=trav["node_list"], **d)
+    for n in w4.snodes:
+        n.__dict__["basis_sets"] = [f"{n._name}.b{k_}" for k_ in range(n.nsets)]
+        n.__dict__["n_sets"] = n.nsets
+    # which traversal does the construction use?
+    itc = SymInterp(src, None, {"chain": lambda *a_: [x for p_ in a_ for x in p_], "Model": lambda basis, terms_: Sym("model", basis=list(basis), qn_size=1),
+                                "_terms_to_table": lambda *a_: (_StopRun(),), "np": Blob("np")})
+    try:
+        itc.call_function(ct, [mk_basis("construct"), "terms"])
+    except (_StopRun, AnalysisError, TypeError, ValueError):
+        pass
+    conv, conn = [], []
+
+    def construct(basis, terms, algo=None):
+        order = trav[used["construct"][0]] if used["construct"] else []
+        return [("mo", n._name) for n in order], [("qn", n._name) for n in order]
+    iti = SymInterp(src, None, {"construct_symbolic_ttno": construct, "Op": None, "backend": Blob("backend"),
+                                "symbolic_mo_to_numeric_mo_general": lambda bs, mo, dtype: conv.append((list(bs), mo)) or ("mat",) + tuple(mo[1:]),
+                                "TreeNodeTensor": lambda mat, qn=None: Sym(f"tnode({mat[1]})", made_from=(mat, qn)),
+                                "copy_connection": lambda a_, b_: conn.append((list(a_), list(b_))) or "root",
+                                "super": lambda: Sym("super", __init__=lambda *a_: None)})
+    me = Sym("ttno")
+    iti.call_function(init, [me, mk_basis("init"), ["term"]])
+    pair_ok = bool(conv) and all(bs == [f"{mo[1]}.b{k_}" for k_ in range(len(bs))] for bs, mo in conv) and len(conv) == len(w4.snodes)
+    conn_ok = len(conn) == 1 and [x._name for x in conn[0][0]] == [y.made_from[0][1] for y in conn[0][1]] and [y.made_from[1][1] for y in conn[0][1]] == [x._name for x in conn[0][0]]
+    chk.ob("layout", "construction order = conversion order = connection order", pair_ok and conn_ok and len(used["construct"]) == 1, init.where,
+           {"construction traverses": used["construct"], "conversion traverses": used["init"], "pairs": [(bs, mo) for bs, mo in conv][:3], "connections": len(conn)},
+           "the i-th symbolic node matrix is converted with the basis sets of the node it was built for and wired to that node's position", line=init.node.lineno,
+           detail="the i-th symbolic node matrix must be converted with the basis sets of the i-th node of the same traversal, and wired with that traversal's connectivity; "
+                  "a post-order / pre-order mix-up gives a wrong operator for every tree that is not a chain")
     # 5. post-order really lists children before parents, pre-order parents before children (node_list / node_idx convention)
     tb = src.func(TBASE, "Tree.postorder_list")
     pb = src.func(TBASE, "Tree.preorder_list")
@@ -1676,6 +1764,22 @@ class _Cell:
         return _Cell(self.items + [o])
 
 
+class _StopRun(Exception):
+    def __iter__(self):
+        raise self
+
+
+def _postorder(root):
+    out = []
+
+    def rec(x):
+        for c in x.children:
+            rec(c)
+        out.append(x)
+    rec(root)
+    return out
+
+
 def _mv(t, a, b):
     t = list(t)
     n = len(t)
@@ -1729,28 +1833,25 @@ def dof_rdm(chk, src, topologies=("ternary", "generic")):
                    detail=f"{key}: " + (probs[0] if probs else "the kept axes are not the requested degrees of freedom in (ket..., bra...) order") +
                           " - wrong only when nodes carry different numbers of basis sets or the degree of freedom is not the first of its node")
         # ---- one dof
-        loop = [s for s in f1.node.body if isinstance(s, ast.For)][-1]
         for n, k in dofs:
             if n.nsets == 1 and n.idx not in (0, 1):
                 continue
             rec = []
             it = SymInterp(src, None, {"oe_contract": lambda *a: rec.append(a) or Blob("res"), "list": list})
             d = dofname[(n._name, k)]
-            env = {"self": Sym("ttns", basis=basis), "dof_list": [d], "rdm_site_dict": SymDict(lambda i: T("rdm", site_legs([i]))), "rdm_dof_dict": {}}
-            it.block([loop], env, f1)
+            me = Sym("ttns", basis=basis, calc_1site_rdm=lambda idxs: SymDict(lambda i: T("rdm", site_legs([i]))))
+            it.call_function(f1, [me, d])
             decide(f1, f"calc_1dof_rdm [{topo}: {d}]", rec, [(n._name, k)], [n.idx])
         # ---- two dofs
-        loops = [s for s in f2.node.body if isinstance(s, ast.For)]
-        loop = loops[-1]
         pairs = [(a, b) for a in dofs for b in dofs if a != b and (a[0].nsets > 1 or b[0].nsets > 1 or (a[0].idx, b[0].idx) in ((0, 1), (1, 0)))]
         for (n1, k1), (n2, k2) in pairs:
             rec = []
             it = SymInterp(src, None, {"oe_contract": lambda *a: rec.append(a) or Blob("res")})
             d1, d2 = dofname[(n1._name, k1)], dofname[(n2._name, k2)]
-            env = {"self": Sym("ttns", basis=basis), "dofs": [(d1, d2)], "rdm_": {},
-                   "rdm_1sites": SymDict(lambda i: T("rdm1", site_legs([i]))), "rdm_2sites": SymDict(lambda ij: T("rdm2", site_legs(list(ij))))}
+            me = Sym("ttns", basis=basis, calc_1site_rdm=lambda idxs: SymDict(lambda i: T("rdm1", site_legs([i]))),
+                     calc_2site_rdm=lambda idxs: SymDict(lambda ij: T("rdm2", site_legs(list(ij)))))
             try:
-                it.block([loop], env, f2)
+                it.call_function(f2, [me, [(d1, d2)]])
             except (IndexError, ValueError) as e:
                 chk.ob("dof-rdm", f"calc_2dof_rdm [{topo}: {d1},{d2}]", False, f2.where, f"{type(e).__name__}: {e}", "a partial trace", line=f2.node.lineno,
                        detail=f"calc_2dof_rdm({d1}, {d2}) indexes outside the RDM's axes")
